@@ -32,7 +32,7 @@
 EXTENDS Removals
 
 CONSTANTS Objs,        \* object names (naturals)
-          Rich,        \* TRUE: more field contents (thorough)
+          Rich,        \* 0, 1, 2: how many field contents are offered
           SharedMemo,  \* negative control
           EmitObj      \* TRUE: print one EDGE line per evaluated action instance
 
@@ -57,9 +57,11 @@ Pal == << <<sp, PW(1), us, PW(2)>>,                                          \* 
 PalLines(ix) == [k \in 1..Len(ix) |-> Pal[ix[k]]]
 Choices(f) == IF f = "src"
               THEN {PalLines(<<1>>), PalLines(<<1, 2>>)}
-                   \cup (IF Rich THEN {PalLines(<<>>), PalLines(<<5, 2>>), PalLines(<<1, 1>>)} ELSE {})
+                   \cup (IF Rich >= 1 THEN {PalLines(<<>>)} ELSE {})
+                   \cup (IF Rich >= 2 THEN {PalLines(<<5, 2>>), PalLines(<<1, 1>>)} ELSE {})
               ELSE {PalLines(<<3>>)}
-                   \cup (IF Rich THEN {PalLines(<<4, 3>>), PalLines(<<5>>)} ELSE {})
+                   \cup (IF Rich >= 1 THEN {PalLines(<<4, 3>>)} ELSE {})
+                   \cup (IF Rich >= 2 THEN {PalLines(<<5>>)} ELSE {})
 
 ----------------------------------------------------------------------------
 Records(f, fl) == IF ~fl.has THEN <<>>
@@ -142,8 +144,10 @@ MemoSound == \A o \in Objs, f \in Fields :
 \* ... and a never-read property has no cache at all
 NoGhostMemo == SharedMemo \/ \A o \in Objs, f \in Fields : zone[o][f] = "fresh" => ~memo[o][f].set
 \* a read in the clean zone returned the records of the current field
-ResSound == (res.o # 0 /\ zone[res.o][res.f] = "read") =>
-               (~res.mut /\ res.v = Records(res.f, fld[res.o][res.f]))
+\* (res is not part of the VIEW: an action property, checked on every transition)
+ResSoundStep == (res'.o # 0 /\ zone'[res'.o][res'.f] = "read") =>
+                   (~res'.mut /\ res'.v = Records(res'.f, fld'[res'.o][res'.f]))
+ResSound == [][ResSoundStep]_<<vars, ovars>>
 \* for the palette the implementation layer agrees with the statement
 PaletteDecided == \A f \in Fields : \A ls \in Choices(f) :
                      LET fl == [has |-> TRUE, ls |-> ls] IN Decided(f, fl) /\ Expected(f, fl) = Records(f, fl)
